@@ -40,6 +40,11 @@ type Bucket struct {
 	Log  []Op
 }
 
+// lock/unlock hide the fake's own mutex from the race detector: real S3 does not
+// synchronise its clients' memory.
+func (b *Bucket) lock()   { sched.RaceOff(); b.mu.Lock() }
+func (b *Bucket) unlock() { b.mu.Unlock(); sched.RaceOn() }
+
 func NewBucket() *Bucket { return &Bucket{Segs: map[string][]byte{}, Idx: map[string][]byte{}} }
 
 // Client is one broker incarnation's view of the bucket.
@@ -59,14 +64,23 @@ func New(b *Bucket, who string) *Client {
 }
 
 // Crashed reports whether this incarnation has crashed.
-func (c *Client) Crashed() bool { c.cmu.Lock(); defer c.cmu.Unlock(); return c.crashed }
+func (c *Client) Crashed() bool {
+	sched.RaceOff()
+	c.cmu.Lock()
+	v := c.crashed
+	c.cmu.Unlock()
+	sched.RaceOn()
+	return v
+}
 
 // Crash marks this incarnation dead: every later operation fails without effect.
 func (c *Client) Crash() {
+	sched.RaceOff()
 	c.cmu.Lock()
 	was := c.crashed
 	c.crashed = true
 	c.cmu.Unlock()
+	sched.RaceOn()
 	if !was && c.OnCrash != nil {
 		c.OnCrash()
 	}
@@ -95,9 +109,9 @@ func (c *Client) log(op, key string, err error, size int) {
 	if err != nil {
 		e = err.Error()
 	}
-	c.B.mu.Lock()
+	c.B.lock()
 	c.B.Log = append(c.B.Log, Op{Who: c.Who, Name: op, Key: key, Err: e, Size: size})
-	c.B.mu.Unlock()
+	c.B.unlock()
 }
 
 func (c *Client) UploadSegment(ctx context.Context, key string, body []byte) error {
@@ -107,9 +121,9 @@ func (c *Client) UploadSegment(ctx context.Context, key string, body []byte) err
 	if err := ctx.Err(); err != nil {
 		return err
 	}
-	c.B.mu.Lock()
+	c.B.lock()
 	c.B.Segs[key] = append([]byte(nil), body...)
-	c.B.mu.Unlock()
+	c.B.unlock()
 	c.log("UploadSegment", key, nil, len(body))
 	return nil
 }
@@ -121,9 +135,9 @@ func (c *Client) UploadIndex(ctx context.Context, key string, body []byte) error
 	if err := ctx.Err(); err != nil {
 		return err
 	}
-	c.B.mu.Lock()
+	c.B.lock()
 	c.B.Idx[key] = append([]byte(nil), body...)
-	c.B.mu.Unlock()
+	c.B.unlock()
 	c.log("UploadIndex", key, nil, len(body))
 	return nil
 }
@@ -132,9 +146,9 @@ func (c *Client) DeleteSegment(ctx context.Context, key string) error {
 	if err := c.pre("DeleteSegment", key); err != nil {
 		return err
 	}
-	c.B.mu.Lock()
+	c.B.lock()
 	delete(c.B.Segs, key)
-	c.B.mu.Unlock()
+	c.B.unlock()
 	c.log("DeleteSegment", key, nil, 0)
 	return nil
 }
@@ -143,9 +157,9 @@ func (c *Client) DeleteIndex(ctx context.Context, key string) error {
 	if err := c.pre("DeleteIndex", key); err != nil {
 		return err
 	}
-	c.B.mu.Lock()
+	c.B.lock()
 	delete(c.B.Idx, key)
-	c.B.mu.Unlock()
+	c.B.unlock()
 	c.log("DeleteIndex", key, nil, 0)
 	return nil
 }
@@ -154,9 +168,9 @@ func (c *Client) DownloadSegment(ctx context.Context, key string, rng *storage.B
 	if err := c.pre("DownloadSegment", key); err != nil {
 		return nil, err
 	}
-	c.B.mu.Lock()
+	c.B.lock()
 	data, ok := c.B.Segs[key]
-	c.B.mu.Unlock()
+	c.B.unlock()
 	if !ok {
 		c.log("DownloadSegment", key, storage.ErrNotFound, 0)
 		return nil, fmt.Errorf("%w: segment %s", storage.ErrNotFound, key)
@@ -186,9 +200,9 @@ func (c *Client) DownloadIndex(ctx context.Context, key string) ([]byte, error) 
 	if err := c.pre("DownloadIndex", key); err != nil {
 		return nil, err
 	}
-	c.B.mu.Lock()
+	c.B.lock()
 	data, ok := c.B.Idx[key]
-	c.B.mu.Unlock()
+	c.B.unlock()
 	if !ok {
 		c.log("DownloadIndex", key, storage.ErrNotFound, 0)
 		return nil, fmt.Errorf("%w: index %s", storage.ErrNotFound, key)
@@ -201,8 +215,8 @@ func (c *Client) ListSegments(ctx context.Context, prefix string) ([]storage.S3O
 	if err := c.pre("ListSegments", prefix); err != nil {
 		return nil, err
 	}
-	c.B.mu.Lock()
-	defer c.B.mu.Unlock()
+	c.B.lock()
+	defer c.B.unlock()
 	var out []storage.S3Object
 	for k, v := range c.B.Segs {
 		if strings.HasPrefix(k, prefix) {
@@ -222,8 +236,8 @@ func (c *Client) EnsureBucket(ctx context.Context) error { return nil }
 
 // Snapshot returns copies of both object maps.
 func (b *Bucket) Snapshot() (segs, idx map[string][]byte) {
-	b.mu.Lock()
-	defer b.mu.Unlock()
+	b.lock()
+	defer b.unlock()
 	segs = make(map[string][]byte, len(b.Segs))
 	idx = make(map[string][]byte, len(b.Idx))
 	for k, v := range b.Segs {
@@ -237,8 +251,8 @@ func (b *Bucket) Snapshot() (segs, idx map[string][]byte) {
 
 // Keys returns all object keys, sorted.
 func (b *Bucket) Keys() []string {
-	b.mu.Lock()
-	defer b.mu.Unlock()
+	b.lock()
+	defer b.unlock()
 	var out []string
 	for k := range b.Segs {
 		out = append(out, k)
@@ -252,7 +266,7 @@ func (b *Bucket) Keys() []string {
 
 // Ops returns a copy of the operation log.
 func (b *Bucket) Ops() []Op {
-	b.mu.Lock()
-	defer b.mu.Unlock()
+	b.lock()
+	defer b.unlock()
 	return append([]Op(nil), b.Log...)
 }
